@@ -9,6 +9,7 @@ package checks
 // by varying the schema over a fixed, small content.
 
 import (
+	"encoding/binary"
 	"fmt"
 	"strings"
 
@@ -20,8 +21,9 @@ import (
 )
 
 type zooCase struct {
-	name  string
-	stmts []string
+	name   string
+	stmts  []string
+	legacy bool // written with SQLite's legacy file format setting: schema format 1..3, in which DESC in an index definition is ignored
 }
 
 var zooColNames = [][]string{
@@ -117,7 +119,7 @@ func zooCases(thorough bool) []zooCase {
 				late = 2
 			}
 			stmts = append(stmts, "ALTER TABLE z ADD COLUMN e DEFAULT 'dflt'", "INSERT INTO z ("+QI(names[late])+", e) VALUES ('late', 'given')")
-			out = append(out, zooCase{fmt.Sprintf("rowid names=%d alias=%d", ni, alias), stmts})
+			out = append(out, zooCase{name: fmt.Sprintf("rowid names=%d alias=%d", ni, alias), stmts: stmts})
 		}
 		if ni > 0 {
 			continue // WITHOUT ROWID tables have no rowid keywords to shadow
@@ -157,7 +159,7 @@ func zooCases(thorough bool) []zooCase {
 					vals := []string{fmt.Sprint(i % 4), fmt.Sprintf("'k%d'", i%3), fmt.Sprint(20 - i), fmt.Sprintf("'d%d'", i%5)}
 					stmts = append(stmts, "INSERT OR IGNORE INTO z VALUES ("+strings.Join(vals, ", ")+")")
 				}
-				out = append(out, zooCase{fmt.Sprintf("without-rowid pk=%v desc=%d", pk, dm), stmts})
+				out = append(out, zooCase{name: fmt.Sprintf("without-rowid pk=%v desc=%d", pk, dm), stmts: stmts})
 			}
 		}
 	}
@@ -167,6 +169,15 @@ func zooCases(thorough bool) []zooCase {
 // zooRun: which = C01 (table rows), C02 (index order), C03 (equality search)
 func zooRun(r *ev.Run, which string) {
 	cases := zooCases(r.Thorough())
+	// every schema once more as a legacy-format database (the ALTER TABLE of the rowid cases makes it format 3;
+	// WITHOUT ROWID cases get an ADD COLUMN appended for the same reason)
+	for _, zc := range append([]zooCase{}, cases...) {
+		lc := zooCase{name: zc.name + " (legacy file format)", stmts: append([]string{}, zc.stmts...), legacy: true}
+		if strings.Contains(zc.stmts[0], "WITHOUT ROWID") {
+			lc.stmts = append(lc.stmts, "ALTER TABLE z ADD COLUMN e DEFAULT 'dflt'")
+		}
+		cases = append(cases, lc)
+	}
 	r.Set("schema_zoo_cases", len(cases))
 	ev.Parallel(len(cases), func(ci int) {
 		zc := cases[ci]
@@ -176,6 +187,9 @@ func zooRun(r *ev.Run, which string) {
 			return
 		}
 		defer l.Close()
+		if zc.legacy {
+			l.LegacyFormat(true)
+		}
 		l.MustExec("PRAGMA page_size=512")
 		for _, st := range zc.stmts {
 			if err := l.Exec(st); err != nil {
@@ -184,6 +198,12 @@ func zooRun(r *ev.Run, which string) {
 			}
 		}
 		img := l.Serialize()
+		if zc.legacy && len(img) >= 48 {
+			if f := binary.BigEndian.Uint32(img[44:48]); f < 2 || f > 3 {
+				r.Outcome(fmt.Sprintf("legacy case with schema format %d skipped", f))
+				return
+			}
+		}
 		art := map[string]interface{}{"family": "schema-zoo", "case": zc.name, "create": zc.stmts[0]}
 		r.Eval(1)
 		r.Validated(1)
